@@ -228,6 +228,9 @@ def gen_adapter(c, layout="", iname=None):
         o += ['\tcase "rar":', f"\t\tc.RunAndReturn({cb('rar', rts, retvals if nr else None)})"]
         if nr:
             o += ['\tcase "whole":', f"\t\tc.Call.Return({cb('whole', rts, retvals)})"]
+            if var:    # the legacy provider form: the variadic arguments as one slice parameter
+                sigs = ", ".join([f"p{i} {GO[k]}" for i, k in enumerate(pk)] + [f"pv []{GO[vk]}"])
+                o += ['\tcase "wslice":', f"\t\tc.Call.Return(func({sigs}){ressig(rts)} {{\n\t\t\ta.log.Cb(\"whole\", {absf}, {absv})\n\t\t\treturn {retvals}\n\t\t}})"]
             provs = ", ".join(cb(f"p{i}", [rts[i]], f"rt.C_{k}({20 + i}, op.Rets[{i}])") for i, k in enumerate(rk))
             o += ['\tcase "per":', f"\t\tc.Call.Return({provs})"]
         o += ['\tcase "none":', "\tdefault:", '\t\tpanic("rt: style not applicable: " + op.Style)', "\t}"]
@@ -424,7 +427,7 @@ def random_history(rng, c, max_ops, max_exp):
     """A random op history over the wide alphabet; no expectations are computed here -- TLC judges the log."""
     np_, nr, var = len(c["pk"]), len(c["rk"]), c["vk"] != "none"
     unrolled = c["unroll"] == "true"
-    styles = ["ret", "runret", "rar", "none", "run"] + (["whole", "per"] if nr else [])
+    styles = ["ret", "runret", "rar", "none", "run"] + (["whole", "per"] if nr else []) + (["wslice"] if nr and var else [])
     ops, exps = [], []
     n = rng.randint(3, max_ops)
 
@@ -450,7 +453,7 @@ def random_history(rng, c, max_ops, max_exp):
                 else:
                     vm = [slc(q)]
             style = rng.choice(styles)
-            rets = [rng.choice(vals_of(k)) for k in c["rk"]] if style in ("ret", "runret", "rar", "whole", "per") else []
+            rets = [rng.choice(vals_of(k)) for k in c["rk"]] if style in ("ret", "runret", "rar", "whole", "wslice", "per") else []
             e = {"op": "expect", "m": rng.randint(1, c["nm"]), "ms": ms + vm, "style": style, "rets": rets,
                  "rem": rng.choice([0, 0, 0, 1, 1, 2, 3]), "_f": base, "_v": q if var else []}
             exps.append(e)
@@ -499,6 +502,8 @@ def project(c_op, ev):
 
 
 def reply_ok(want, got):
+    if want.get("lenient") and got["kind"] == "panic" and not got["cbs"]:
+        return True
     if want["kind"] != got["kind"]:
         return False
     if want["kind"] == "values" and want["vals"] != got["vals"]:
@@ -708,7 +713,9 @@ def run(ctx):
     cases = dedupe_prefixes(cases)
     # ---- vacuity guards on what TLC exported
     guard = {"failnow": 0, "panic_naming": 0, "nil_return": 0, "callback": 0, "cleanup_yes": 0, "cleanup_no": 0,
-             "variadic_slice_match": 0, "variadic_elem_match": 0, "once_exhausted": 0, "second_expectation": 0, "deviation": 0}
+             "variadic_slice_match": 0, "variadic_elem_match": 0, "once_exhausted": 0, "second_expectation": 0,
+             "nil_iface_arg_through_run": 0, "nil_iface_arg_through_rar_no_result": 0, "whole_provider_variadic_multi_unrolled": 0,
+             "whole_provider_variadic_multi_slice_mode": 0, "slice_form_provider_accepted_by_impl": 0, "slice_form_provider_refused_by_impl": 0}
     for c in cases:
         k = byid[c["class"]]
         for o in c["ops"]:
@@ -718,7 +725,14 @@ def run(ctx):
                 guard["panic_naming"] += e["kind"] == "panic" and e["names"]
                 guard["nil_return"] += e["kind"] == "values" and "V0" in e["vals"]
                 guard["callback"] += len(e["cbs"]) > 0
-                guard["deviation"] += o["dev"] != "none"
+                nil_if = o["matched"] > 0 and any(kk in ("iface", "any", "error") and x == "V0" for kk, x in zip(k["pk"], o["f"]))
+                guard["nil_iface_arg_through_run"] += nil_if and o["style"] in ("run", "runret")
+                guard["nil_iface_arg_through_rar_no_result"] += nil_if and o["style"] == "rar" and not k["rk"]
+                vm = k["vk"] != "none" and len(k["rk"]) > 1 and o["style"] in ("rar", "whole")
+                guard["whole_provider_variadic_multi_unrolled"] += vm and k["unroll"] == "true"
+                guard["whole_provider_variadic_multi_slice_mode"] += vm and k["unroll"] != "true"
+                guard["slice_form_provider_accepted_by_impl"] += o["style"] == "wslice" and o["impl"]["kind"] == "values"
+                guard["slice_form_provider_refused_by_impl"] += o["style"] == "wslice" and o["impl"]["kind"] == "panic"
                 guard["second_expectation"] += o["matched"] >= 2
                 if k["vk"] != "none" and o["matched"] > 0 and o["v"]:
                     guard["variadic_elem_match" if k["unroll"] == "true" else "variadic_slice_match"] += 1
